@@ -6,6 +6,8 @@ ID = "C11"
 DRIVER = "drv_persist"
 KEEP_PREFIX = 1        # ps.init
 HARNESS = "h_persist"
+QUICK_LEVEL = "thorough"      # the larger case set costs only seconds
+THOROUGH_SEEDS = 4
 RULE = ("the C10 configuration grid (sizes x placements x algorithms x buffer sizes); for every full and partial store: the store is cut at every "
         "medium write (the write is torn after k = 0..n octets and nothing further is written), then a fresh validate and fetch run on the medium; "
         "for store, validate, fetch and reset: one failing or short transfer injected at every access position.  Non-trivial = the injected fault "
